@@ -42,6 +42,18 @@ def run(ctx):
     for m in maps:
         ctx.distinct.add(el.show_map(m['x']))
     libs = cl.LIBS if thorough else ['BensonGA', 'GRWAqueous2018', 'PPY']
+    # a scratch library whose ranges start at exactly 0 K: zero is a bound like any other
+    import os
+    zd = tempfile.mkdtemp(prefix='zero_', dir=ctx.scratch)
+    with open(os.path.join(zd, 'scheme.yaml'), 'w') as f:
+        f.write('patterns: []\n')
+    with open(os.path.join(zd, 'library.yaml'), 'w') as f:
+        f.write('groups:\n')
+        for g, lo, hi, k1, k2 in (('z1', 0, 1000, 300, 800), ('z2', 200, 1500, 300, 1200), ('z3', 0, 800, 400, 700),
+                                   ('z4', 0, 2000, 250, 1800), ('z5', 100, 900, 300, 600)):
+            f.write('  %s:\n    thermochem:\n      T_ref: 298.15 K\n      ND_H_ref: 1.5\n      ND_S_ref: 2.0\n'
+                    '      ND_Cp_data: [[%d K, 3.0], [%d K, 4.5]]\n      range: [%d K, %d K]\n' % (g, k1, k2, lo, hi))
+    libs = list(libs) + [os.path.join(zd, 'library.yaml')]
     c01.real_sessions(ctx, libs, 200 if thorough else 40, 1 if thorough else 4,
                       ('class', 'range'), report, ctx.seed + 1)
     ctx.extra['mc'] = {'correlation_cases': len(cases), 'estimate_mappings': len(maps)}
